@@ -92,8 +92,8 @@ UNITS = {
                         quick=reg(PV, ['k_eq_range_int'] + ['k_cmp_types_%d' % i for i in range(9)]), thorough=[], assumptions=STUBS, timeout=500),
     'U-peq': dict(functions='impl PartialEq for PathAwareValue vs compare_eq', cls='complete (9 scalar-payload variants squared, full payload domains)',
                   quick=[], thorough=reg(PV, ['k_peq_%d' % i for i in range(9)]), assumptions=STUBS, timeout=600),
-    'U-peq-same': dict(functions='impl PartialEq for PathAwareValue vs compare_eq, same-type scalar pairs', cls='complete (Null, Bool, Int, finite Float, Char pairs over the full payload domains)',
-                       quick=reg(PV, ['k_peq_same_null', 'k_peq_same_bool', 'k_peq_same_int', 'k_peq_float_finite', 'k_peq_same_char']), thorough=[], assumptions=STUBS, timeout=600, mem_gb=8),
+    'U-peq-same': dict(functions='impl PartialEq for PathAwareValue vs compare_eq, same-type scalar pairs', cls='complete (Null, Bool, Int, Char pairs over the full payload domains); the Float pair exceeds 600 s (the Err(_) arm of eq drops an Error behind a symbolic discriminant) and is NOT registered',
+                       quick=reg(PV, ['k_peq_same_null', 'k_peq_same_bool', 'k_peq_same_int', 'k_peq_same_char']), thorough=[], assumptions=STUBS, timeout=600, mem_gb=8),
     'U-within': dict(functions='values::is_within + WithinRange for i64/f64/char', cls='complete (full domains x all u8 inclusive bit patterns)',
                      quick=reg(VAL, ['k_within_int', 'k_within_float', 'k_within_char']), thorough=[], assumptions=[], timeout=300),
     'U-unary-op-k': dict(functions='CmpOperator::is_unary', cls='complete (15 operators)', quick=reg(VAL, ['k_is_unary']), thorough=[], assumptions=[], timeout=300),
